@@ -551,6 +551,7 @@ Lemma set_record_halt c s name typ id data s' v ns :
     check_record hash valid_name valid_data c s name typ data = Halt tok /\
     typ = Z.of_N tb /\ (tb = 1 \/ tb = 5 \/ tb = 16 \/ tb = 28)%N /\ id = Z.of_N ib /\
     count_ok (records s) (hash tok) (hash name) tb k /\ (ib < k)%N /\
+    (forall j, j <> N.to_nat ib -> spec_recs s (hash tok) (hash name) tb !! j <> Some data) /\
     records s !! soa_key tok = Some old /\ soa_refreshed c old new /\
     s' = set_records s (<[soa_key tok := new]>
            (<[(hash tok, hash name, tb, ib) := mkR name typ data id]> (records s))) /\
@@ -561,7 +562,8 @@ Proof.
   cbn [obind] in H.
   destruct (to_byte typ) as [tb|] eqn:Etb; [|discriminate H]. cbn [obind] in H.
   destruct (to_byte id) as [ib|] eqn:Eib; [|discriminate H]. cbn [obind] in H.
-  destruct (records s !! (hash tok, hash name, tb, ib)) as [r0|] eqn:Er0; [|discriminate H].
+  destruct (records s !! (hash tok, hash name, tb, ib)) as [r0|] eqn:Er0; cbv beta iota in H; [|discriminate H].
+  rewrite (find_by_type_spec _ _ _ _ Hinv) in H. inv1 H.
   destruct (check_record_halt _ _ _ _ _ _ Ecr) as (Etok & Htyp & _).
   assert (Htb : typ = Z.of_N tb) by (apply to_byte_nonneg; [assumption|lia]).
   destruct (count_ok_ex s (hash tok) (hash name) tb Hinv) as [k Hk].
@@ -578,8 +580,21 @@ Proof.
   rewrite lookup_insert_ne in Eold by (intros Heq; apply Hne; symmetry; exact Heq).
   exists tok, tb, ib, k, old, new.
   split; [reflexivity|]. split; [exact Htb|]. split; [lia|]. split; [exact Hid|]. split; [exact Hk|].
-  split; [exact Hik|]. split; [exact Eold|]. split; [exact Href|]. split; [|split; reflexivity].
-  rewrite set_records_twice, records_set_records. reflexivity.
+  split; [exact Hik|]. split; [|split; [exact Eold|]; split; [exact Href|]; split; [|split; reflexivity];
+    rewrite set_records_twice, records_set_records; reflexivity].
+  intros j Hj Hd. destruct (spec_recs_lookup s _ _ _ _ j Hk) as [_ Hl]. rewrite Hl in Hd.
+  destruct (records s !! (hash tok, hash name, tb, N.of_nat j)) as [r|] eqn:Er; [|discriminate Hd].
+  simpl in Hd. injection Hd as Hd.
+  apply negb_true_iff, not_true_iff_false in E. apply E. clear E.
+  apply existsb_exists. exists ((tb * 256 + N.of_nat j)%N, r). split.
+  { apply elem_of_list_In, elem_of_spec_ents. exists (N.of_nat j). simpl.
+    assert (N.of_nat j < k)%N by (apply Hk; eauto). split; [lia|]. split; [exact Er|reflexivity]. }
+  destruct Hinv as [Hwf _]. destruct (Hwf _ _ _ _ _ Er) as (Hn & Ht & Hi & _). apply hash_inj in Hn.
+  cbn [snd]. rewrite !andb_true_iff. split; [split; [split|]|].
+  - apply negb_true_iff, Z.eqb_neq. lia.
+  - apply bytes_eqb_eq. exact Hn.
+  - apply Z.eqb_eq. congruence.
+  - apply bytes_eqb_eq. exact Hd.
 Qed.
 
 (** ** DeleteRecords *)
@@ -613,6 +628,64 @@ Proof.
   rewrite Hc. apply lookup_delete.
 Qed.
 
+Lemma to_byte_6 z : to_byte z = Halt 6%N -> z = 6.
+Proof. intros H. apply to_byte_small in H; lia. Qed.
+
+(** without any invariant: the store after the deletion loop *)
+Definition deleted (m : gmap rkey rstate) (tk nk : bytes) (tb : N) : gmap rkey rstate :=
+  fold_left (fun m (e : ent) => delete (tk, nk, tb, (fst e mod 256)%N) m) (find_by_type m tk nk tb) m.
+
+Lemma deleted_other m tk nk tb tk' nk' tb' i :
+  (tk', nk', tb') <> (tk, nk, tb) -> deleted m tk nk tb !! (tk', nk', tb', i) = m !! (tk', nk', tb', i).
+Proof. intros Hne. unfold deleted. apply fold_delete_other. intros i' Heq. apply Hne. congruence. Qed.
+
+Lemma delete_records_halt0 c s name typ s' v ns :
+  nexec c s (DeleteRecords name typ) = Halt (s', v, ns) ->
+  exists tok tb ns0 old new,
+    typ <> T_SOA /\ tok_of c s name = Halt tok /\ length (split_dot tok) <> 1%nat /\
+    get_frag_ns hash c s tok (split_dot tok) = Halt ns0 /\ may_admin c ns0 = true /\
+    to_byte typ = Halt tb /\ tb <> 6%N /\
+    records s !! soa_key tok = Some old /\ soa_refreshed c old new /\
+    s' = set_records s (<[soa_key tok := new]> (deleted (records s) (hash tok) (hash name) tb)) /\
+    v = VNull /\ ns = [].
+Proof.
+  intros H. unfold NNS.nexec in H. cbv zeta in H.
+  inv1 H. inv1 H. inv1 H. inv1 H. inv1 H. inv1 H.
+  rename x into tok. rename x2 into tb.
+  fold (deleted (records s) (hash tok) (hash name) tb) in H.
+  destruct (update_soa_serial hash str_ok c (set_records s (deleted (records s) (hash tok) (hash name) tb)) tok) as [s2|] eqn:Eu;
+    [|discriminate H].
+  cbn [obind] in H. injection H as <- <- <-.
+  apply update_soa_serial_halt in Eu as (old & new & Eold & _ & Href & ->).
+  rewrite records_set_records in Eold.
+  assert (Htb6 : tb <> 6%N).
+  { intros ->. match goal with Hb : to_byte typ = Halt 6%N |- _ => apply to_byte_6 in Hb end.
+    unfold T_SOA in *. lia. }
+  assert (Eold' : records s !! soa_key tok = Some old).
+  { rewrite <- Eold. symmetry. unfold soa_key. apply deleted_other. intros Heq. apply Htb6. congruence. }
+  exists tok, tb. eexists _, old, new.
+  split; [unfold T_SOA in *; lia|]. split; [reflexivity|]. split; [lia|].
+  split; [first [eassumption|reflexivity]|]. split; [eapply check_admin_halt; eassumption|].
+  split; [reflexivity|]. split; [exact Htb6|].
+  split; [exact Eold'|]. split; [exact Href|]. split; [|split; reflexivity].
+  rewrite set_records_twice. reflexivity.
+Qed.
+
+Lemma deleted_none m tk nk tb i : minv m -> deleted m tk nk tb !! (tk, nk, tb, i) = None.
+Proof.
+  intros Hinv. unfold deleted. rewrite (find_by_type_spec _ _ _ _ Hinv).
+  destruct (proj2 Hinv tk nk tb) as [k Hk].
+  destruct (m !! (tk, nk, tb, i)) as [r|] eqn:Er.
+  - assert (Hi : (i < k)%N) by (apply Hk; eauto). assert (Hk16 : (k <= 16)%N) by apply Hk.
+    assert (He : ((tb * 256 + i)%N, r) ∈ spec_ents m tk nk tb).
+    { apply elem_of_spec_ents. exists i. simpl. split; [lia|]. split; [exact Er|reflexivity]. }
+    assert (Em : ((tb * 256 + i) mod 256 = i)%N).
+    { rewrite N.add_comm, N.mod_add by lia. apply N.mod_small. lia. }
+    rewrite <- Em at 1. apply (fold_delete_hit _ _ _ _ _ ((tb * 256 + i)%N, r) He).
+  - destruct (fold_delete_cases tk nk tb (spec_ents m tk nk tb) m (tk, nk, tb, i)) as [Hc|Hc]; [|exact Hc].
+    rewrite Hc. exact Er.
+Qed.
+
 Lemma delete_records_halt c s name typ s' v ns :
   rec_inv s -> nexec c s (DeleteRecords name typ) = Halt (s', v, ns) ->
   exists tok tb ns0 m1 old new,
@@ -625,41 +698,300 @@ Lemma delete_records_halt c s name typ s' v ns :
     records s !! soa_key tok = Some old /\ soa_refreshed c old new /\
     s' = set_records s (<[soa_key tok := new]> m1) /\ v = VNull /\ ns = [].
 Proof.
-  intros Hinv H. unfold NNS.nexec in H. cbv zeta in H.
-  inv1 H. inv1 H. inv1 H. inv1 H. inv1 H. inv1 H.
-  rewrite (find_by_type_spec _ _ _ _ Hinv) in H.
-  match type of H with obind (update_soa_serial _ _ _ (set_records _ ?m) _) _ = _ => set (m1 := m) in * end.
-  destruct (update_soa_serial hash str_ok c (set_records s m1) x) as [s2|] eqn:Eu; [|discriminate H]. cbn [obind] in H.
-  injection H as <- <- <-.
-  apply update_soa_serial_halt in Eu as (old & new & Eold & _ & Href & ->).
-  rewrite records_set_records in Eold.
-  rename x into tok. rename x2 into tb.
-  assert (Htb6 : tb <> 6%N).
-  { intros ->. match goal with Hb : to_byte typ = Halt 6%N |- _ => apply to_byte_small in Hb; [|lia] end.
-    unfold T_SOA in *. lia. }
-  destruct (count_ok_ex s (hash tok) (hash name) tb Hinv) as [k Hk].
-  assert (Hnone : forall i, m1 !! (hash tok, hash name, tb, i) = None).
-  { intros i. destruct (records s !! (hash tok, hash name, tb, i)) as [r|] eqn:Er.
-    - assert (Hi : (i < k)%N) by (apply Hk; eauto). assert (Hk16 : (k <= 16)%N) by apply Hk.
-      assert (He : ((tb * 256 + i)%N, r) ∈ spec_ents (records s) (hash tok) (hash name) tb).
-      { apply elem_of_spec_ents. exists i. simpl. split; [lia|]. split; [exact Er|reflexivity]. }
-      assert (Em : ((tb * 256 + i) mod 256 = i)%N).
-      { rewrite N.add_comm, N.mod_add by lia. apply N.mod_small. lia. }
-      rewrite <- Em at 1. apply (fold_delete_hit _ _ _ _ _ ((tb * 256 + i)%N, r) He).
-    - destruct (fold_delete_cases (hash tok) (hash name) tb (spec_ents (records s) (hash tok) (hash name) tb)
-                  (records s) (hash tok, hash name, tb, i)) as [Hc|Hc]; [|exact Hc].
-      unfold m1. rewrite Hc. exact Er. }
-  assert (Hsame : forall tk nk tb' i, (tk, nk, tb') <> (hash tok, hash name, tb) ->
-             m1 !! (tk, nk, tb', i) = records s !! (tk, nk, tb', i)).
-  { intros tk nk tb' i Hne. unfold m1. apply fold_delete_other. intros i' Heq. apply Hne. congruence. }
-  assert (Eold' : records s !! soa_key tok = Some old).
-  { rewrite <- Eold. symmetry. unfold soa_key. apply Hsame. intros Heq. apply Htb6. congruence. }
-  exists tok, tb. eexists _, m1, old, new.
-  split; [unfold T_SOA in *; lia|]. split; [reflexivity|]. split; [lia|].
-  split; [first [eassumption|reflexivity]|]. split; [eapply check_admin_halt; eassumption|].
-  split; [reflexivity|]. split; [exact Htb6|]. split; [exact Hnone|]. split; [exact Hsame|].
-  split; [exact Eold'|]. split; [exact Href|]. split; [|split; reflexivity].
-  rewrite set_records_twice, records_set_records. reflexivity.
+  intros Hinv H. apply delete_records_halt0 in H as (tok & tb & ns0 & old & new & H1 & H2 & H3 & H4 & H5 & H6 & H7 & H8 & H9 & H10 & H11 & H12).
+  exists tok, tb, ns0, (deleted (records s) (hash tok) (hash name) tb), old, new.
+  split; [exact H1|]. split; [exact H2|]. split; [exact H3|]. split; [exact H4|]. split; [exact H5|].
+  split; [exact H6|]. split; [exact H7|]. split; [intros i; apply deleted_none; exact Hinv|].
+  split; [intros tk nk tb' i Hne; apply deleted_other; exact Hne|].
+  split; [exact H8|]. split; [exact H9|]. split; [exact H10|]. split; [exact H11|exact H12].
+Qed.
+
+(** * 5. Preservation of the invariant *)
+Lemma minv_soa_insert m tok name data :
+  minv m -> minv (<[(hash tok, hash name, 6%N, 0%N) := mkR name T_SOA data 0]> m).
+Proof.
+  intros Hinv. destruct (proj2 Hinv (hash tok) (hash name) 6%N) as [k Hk].
+  apply (minv_insert _ _ _ _ _ k); [assumption|assumption|lia|lia|reflexivity|].
+  split; [reflexivity|]. split; [reflexivity|]. split; [reflexivity|]. right; right; left; reflexivity.
+Qed.
+
+Lemma minv_soa_refresh c m tok old new :
+  minv m -> m !! soa_key tok = Some old -> soa_refreshed c old new -> minv (<[soa_key tok := new]> m).
+Proof.
+  intros Hinv Ho (f0 & f1 & f2 & f3 & f4 & f5 & f6 & _ & ->).
+  destruct (proj2 Hinv (hash tok) (hash tok) 6%N) as [k Hk]. unfold soa_key.
+  apply (minv_insert _ _ _ _ _ k); [assumption|assumption|lia|lia|reflexivity|].
+  exact (proj1 Hinv _ _ _ _ _ Ho).
+Qed.
+
+Lemma nexec_inv c s o s' v ns : rec_inv s -> nexec c s o = Halt (s', v, ns) -> rec_inv s'.
+Proof.
+  intros Hinv H. unfold rec_inv.
+  destruct (nexec_records_cases _ _ _ _ _ _ H) as [E|[(tok & name & data & E)|[(name & typ & data & ->)|[(name & typ & id & data & ->)|(name & typ & ->)]]]].
+  - rewrite E. exact Hinv.
+  - rewrite E. apply minv_soa_insert. exact Hinv.
+  - apply add_record_halt in H as (tok & tb & k & old & new & _ & Ht & Htb & Hk & Hk16 & Hk5 & _ & Ho & Hr & -> & _); [|exact Hinv].
+    rewrite records_set_records. apply (minv_soa_refresh c _ _ old); [| |exact Hr].
+    + apply (minv_insert _ _ _ _ _ k); [exact Hinv|exact Hk|lia|lia|lia|].
+      split; [reflexivity|]. split; [exact Ht|]. split; [reflexivity|]. unfold tyb. lia.
+    + rewrite lookup_insert_ne; [exact Ho|]. unfold soa_key. intros Heq. injection Heq as _ Heq _. lia.
+  - apply set_record_halt in H as (tok & tb & ib & k & old & new & _ & Ht & Htb & Hid & Hk & Hik & _ & Ho & Hr & -> & _); [|exact Hinv].
+    rewrite records_set_records. apply (minv_soa_refresh c _ _ old); [| |exact Hr].
+    + assert (Hk16 : (k <= 16)%N) by apply Hk.
+      assert (Hk5 : (tb = 5 \/ tb = 6)%N -> (k <= 1)%N) by apply Hk.
+      apply (minv_insert _ _ _ _ _ k); [exact Hinv|exact Hk|lia|lia|lia|].
+      split; [reflexivity|]. split; [exact Ht|]. split; [exact Hid|]. unfold tyb. lia.
+    + rewrite lookup_insert_ne; [exact Ho|]. unfold soa_key. intros Heq. injection Heq as _ Heq _. lia.
+  - apply delete_records_halt in H as (tok & tb & ns0 & m1 & old & new & _ & _ & _ & _ & _ & _ & Htb6 & Hnone & Hsame & Ho & Hr & -> & _); [|exact Hinv].
+    rewrite records_set_records. apply (minv_soa_refresh c _ _ old); [| |exact Hr].
+    + apply (minv_delete_type (records s) m1 (hash tok) (hash name) tb); assumption.
+    + rewrite <- Ho. unfold soa_key. apply Hsame. intros Heq. apply Htb6. congruence.
+Qed.
+
+Lemma nstep_inv s co : rec_inv s -> rec_inv (fst (fst (nstep s co))).
+Proof.
+  intros Hinv. destruct (nstep_cases hash valid_name valid_data str_ok s co) as [(s' & r & ns & He & ->)|[_ ->]].
+  - simpl. eapply nexec_inv; eassumption.
+  - exact Hinv.
+Qed.
+
+Lemma nrun_from_inv ops s : rec_inv s -> rec_inv (nrun_from s ops).
+Proof.
+  revert s. induction ops as [|co ops IH]; intros s Hinv; [exact Hinv|].
+  unfold NNS.nrun_from. simpl. apply IH. apply nstep_inv. exact Hinv.
+Qed.
+
+Lemma nrun_inv ops : rec_inv (nrun ops).
+Proof. apply nrun_from_inv. exact minv_empty. Qed.
+
+(** * 6. The specification lists and the step semantics on them *)
+Lemma omap_ext_in {A B} (f g : A -> option B) (l : list A) :
+  (forall x, x ∈ l -> f x = g x) -> omap f l = omap g l.
+Proof.
+  induction l as [|x l IH]; intros H; [reflexivity|].
+  csimpl. rewrite (H x) by left. rewrite IH; [reflexivity|]. intros y Hy. apply H. right. exact Hy.
+Qed.
+
+(** a list depends only on the lookups of its own keys *)
+Lemma spec_recs_ext s s' tk nk tb :
+  (forall i, records s' !! (tk, nk, tb, i) = records s !! (tk, nk, tb, i)) ->
+  spec_recs s' tk nk tb = spec_recs s tk nk tb.
+Proof.
+  intros H. unfold spec_recs, spec_ents. f_equal. apply omap_ext_in. intros j _. rewrite H. reflexivity.
+Qed.
+
+Lemma spec_recs_nil s tk nk tb :
+  (forall i, records s !! (tk, nk, tb, i) = None) -> spec_recs s tk nk tb = [].
+Proof.
+  intros H. unfold spec_recs, spec_ents. rewrite omap_none; [reflexivity|]. intros j _. rewrite H. reflexivity.
+Qed.
+
+(** shape of the lists: contiguous ids, at most 16, at most one CNAME / SOA,
+    only the five record types *)
+Lemma spec_recs_shape s tk nk tb :
+  rec_inv s ->
+  (forall j, spec_recs s tk nk tb !! j = r_data <$> records s !! (tk, nk, tb, N.of_nat j)) /\
+  (forall i, is_Some (records s !! (tk, nk, tb, i)) <-> (N.to_nat i < length (spec_recs s tk nk tb))%nat) /\
+  (length (spec_recs s tk nk tb) <= 16)%nat /\
+  ((tb = 5 \/ tb = 6)%N -> (length (spec_recs s tk nk tb) <= 1)%nat) /\
+  (spec_recs s tk nk tb <> [] -> tyb tb).
+Proof.
+  intros Hinv. destruct (count_ok_ex s tk nk tb Hinv) as [k Hk].
+  assert (Hlen : length (spec_recs s tk nk tb) = N.to_nat k) by apply (spec_recs_lookup s tk nk tb k 0%nat Hk).
+  destruct Hk as (Hk & Hk16 & Hk1).
+  split; [intros j; apply (spec_recs_lookup s tk nk tb k j); split; [exact Hk|split; assumption]|].
+  split; [intros i; rewrite Hk, Hlen; lia|]. split; [lia|]. split; [intros Ht; specialize (Hk1 Ht); lia|].
+  intros Hne. assert (Hpos : (0 < k)%N).
+  { destruct (spec_recs s tk nk tb); [contradiction|]. simpl in Hlen. lia. }
+  apply Hk in Hpos. apply (minv_small _ _ _ _ _ Hinv Hpos).
+Qed.
+
+Lemma NoDup_short {A} (l : list A) : (length l <= 1)%nat -> NoDup l.
+Proof.
+  destruct l as [|x [|y l]]; simpl; intros H; [constructor| |lia].
+  apply NoDup_singleton.
+Qed.
+
+(** AddRecord appends to exactly one list *)
+Lemma add_record_spec c s name typ data s' v ns :
+  rec_inv s -> nexec c s (AddRecord name typ data) = Halt (s', v, ns) ->
+  exists tok tb,
+    tok_of c s name = Halt tok /\ typ = Z.of_N tb /\ (tb = 1 \/ tb = 5 \/ tb = 16 \/ tb = 28)%N /\
+    data ∉ spec_recs s (hash tok) (hash name) tb /\
+    (length (spec_recs s (hash tok) (hash name) tb) < 16)%nat /\
+    (tb = 5%N -> spec_recs s (hash tok) (hash name) tb = []) /\
+    spec_recs s' (hash tok) (hash name) tb = spec_recs s (hash tok) (hash name) tb ++ [data] /\
+    (forall tk nk tb', (tk, nk, tb') <> (hash tok, hash name, tb) -> (tk, nk, tb') <> (hash tok, hash tok, 6%N) ->
+       spec_recs s' tk nk tb' = spec_recs s tk nk tb') /\
+    (forall tk nk tb' i, (tk, nk, tb') <> (hash tok, hash name, tb) -> (tk, nk, tb', i) <> soa_key tok ->
+       records s' !! (tk, nk, tb', i) = records s !! (tk, nk, tb', i)) /\
+    names s' = names s /\ roots s' = roots s /\ supply s' = supply s /\ balances s' = balances s /\
+    acctok s' = acctok s /\ price s' = price s /\ v = VNull /\ ns = [].
+Proof.
+  intros Hinv H. assert (Hinv' : rec_inv s') by (eapply nexec_inv; eassumption).
+  apply add_record_halt in H as (tok & tb & k & old & new & Hcr & Ht & Htb & Hk & Hk16 & Hk5 & Hnin & Ho & Hr & -> & -> & ->); [|exact Hinv].
+  apply check_record_halt in Hcr as (Etok & _).
+  destruct (spec_recs_lookup s _ _ _ _ 0%nat Hk) as [Hlen _].
+  assert (Hframe : forall tk nk tb' i, (tk, nk, tb', i) <> (hash tok, hash name, tb, k) -> (tk, nk, tb', i) <> soa_key tok ->
+     records (set_records s (<[soa_key tok := new]> (<[(hash tok, hash name, tb, k) := mkR name typ data (Z.of_N k)]> (records s))))
+       !! (tk, nk, tb', i) = records s !! (tk, nk, tb', i)).
+  { intros tk nk tb' i H1 H2. rewrite records_set_records.
+    rewrite lookup_insert_ne by (intros Heq; apply H2; symmetry; exact Heq).
+    rewrite lookup_insert_ne by (intros Heq; apply H1; symmetry; exact Heq). reflexivity. }
+  exists tok, tb. split; [exact Etok|]. split; [exact Ht|]. split; [exact Htb|]. split; [exact Hnin|].
+  split; [lia|]. split.
+  { intros H5. specialize (Hk5 H5). subst k. destruct (spec_recs s (hash tok) (hash name) tb); [reflexivity|discriminate Hlen]. }
+  split.
+  { apply list_eq. intros j.
+    destruct (count_ok_ex _ (hash tok) (hash name) tb Hinv') as [k' Hk'].
+    destruct (spec_recs_lookup _ _ _ _ _ j Hk') as [_ ->].
+    rewrite records_set_records.
+    rewrite lookup_insert_ne by (unfold soa_key; intros Heq; injection Heq as _ Heq _; lia).
+    destruct (decide (j = N.to_nat k)) as [->|Hne].
+    - rewrite N2Nat.id, lookup_insert. rewrite lookup_app_r by lia. rewrite Hlen, Nat.sub_diag. reflexivity.
+    - rewrite lookup_insert_ne by (intros Heq; injection Heq as Heq; lia).
+      destruct (spec_recs_lookup s _ _ _ _ j Hk) as [_ Hl].
+      destruct (decide (j < N.to_nat k)%nat) as [Hlt|Hge].
+      + rewrite lookup_app_l by lia. symmetry. exact Hl.
+      + rewrite lookup_ge_None_2 by (rewrite app_length; simpl; lia).
+        destruct (records s !! (hash tok, hash name, tb, N.of_nat j)) as [r|] eqn:Er; [|reflexivity].
+        exfalso. assert (N.of_nat j < k)%N by (apply Hk; eauto). lia. }
+  split.
+  { intros tk nk tb' H1 H2. apply spec_recs_ext. intros i. apply Hframe.
+    - intros Heq. apply H1. congruence.
+    - unfold soa_key. intros Heq. apply H2. congruence. }
+  split.
+  { intros tk nk tb' i H1 H2. apply Hframe; [|exact H2]. intros Heq. apply H1. congruence. }
+  repeat (split; [reflexivity|]). reflexivity.
+Qed.
+
+(** SetRecord replaces one position of one list *)
+Lemma set_record_spec c s name typ id data s' v ns :
+  rec_inv s -> nexec c s (SetRecord name typ id data) = Halt (s', v, ns) ->
+  exists tok tb,
+    tok_of c s name = Halt tok /\ typ = Z.of_N tb /\ (tb = 1 \/ tb = 5 \/ tb = 16 \/ tb = 28)%N /\
+    0 <= id /\ (Z.to_nat id < length (spec_recs s (hash tok) (hash name) tb))%nat /\
+    (forall j, j <> Z.to_nat id -> spec_recs s (hash tok) (hash name) tb !! j <> Some data) /\
+    spec_recs s' (hash tok) (hash name) tb = <[Z.to_nat id := data]> (spec_recs s (hash tok) (hash name) tb) /\
+    (forall tk nk tb', (tk, nk, tb') <> (hash tok, hash name, tb) -> (tk, nk, tb') <> (hash tok, hash tok, 6%N) ->
+       spec_recs s' tk nk tb' = spec_recs s tk nk tb') /\
+    (forall tk nk tb' i, (tk, nk, tb', i) <> (hash tok, hash name, tb, Z.to_N id) -> (tk, nk, tb', i) <> soa_key tok ->
+       records s' !! (tk, nk, tb', i) = records s !! (tk, nk, tb', i)) /\
+    records s' !! (hash tok, hash name, tb, Z.to_N id) = Some (mkR name typ data id) /\
+    names s' = names s /\ roots s' = roots s /\ supply s' = supply s /\ balances s' = balances s /\
+    acctok s' = acctok s /\ price s' = price s /\ v = VNull /\ ns = [].
+Proof.
+  intros Hinv H. assert (Hinv' : rec_inv s') by (eapply nexec_inv; eassumption).
+  apply set_record_halt in H as (tok & tb & ib & k & old & new & Hcr & Ht & Htb & Hid & Hk & Hik & Hnd & Ho & Hr & -> & -> & ->); [|exact Hinv].
+  apply check_record_halt in Hcr as (Etok & _).
+  destruct (spec_recs_lookup s _ _ _ _ 0%nat Hk) as [Hlen _].
+  assert (Eid : Z.to_N id = ib) by lia. assert (Eid' : Z.to_nat id = N.to_nat ib) by lia.
+  rewrite Eid, Eid'.
+  assert (Hnes : soa_key tok <> (hash tok, hash name, tb, ib)).
+  { unfold soa_key; intros Heq; injection Heq as _ Heq _; lia. }
+  assert (Hframe : forall tk nk tb' i, (tk, nk, tb', i) <> (hash tok, hash name, tb, ib) -> (tk, nk, tb', i) <> soa_key tok ->
+     records (set_records s (<[soa_key tok := new]> (<[(hash tok, hash name, tb, ib) := mkR name typ data id]> (records s))))
+       !! (tk, nk, tb', i) = records s !! (tk, nk, tb', i)).
+  { intros tk nk tb' i H1 H2. rewrite records_set_records.
+    rewrite lookup_insert_ne by (intros Heq; apply H2; symmetry; exact Heq).
+    rewrite lookup_insert_ne by (intros Heq; apply H1; symmetry; exact Heq). reflexivity. }
+  exists tok, tb. split; [exact Etok|]. split; [exact Ht|]. split; [exact Htb|]. split; [lia|].
+  split; [lia|]. split; [exact Hnd|]. split.
+  { apply list_eq. intros j.
+    destruct (count_ok_ex _ (hash tok) (hash name) tb Hinv') as [k' Hk'].
+    destruct (spec_recs_lookup _ _ _ _ _ j Hk') as [_ ->].
+    rewrite records_set_records.
+    rewrite lookup_insert_ne by (unfold soa_key; intros Heq; injection Heq as _ Heq _; lia).
+    destruct (decide (j = N.to_nat ib)) as [->|Hne].
+    - rewrite N2Nat.id, lookup_insert. rewrite list_lookup_insert by lia. reflexivity.
+    - rewrite lookup_insert_ne by (intros Heq; injection Heq as Heq; lia).
+      rewrite list_lookup_insert_ne by lia.
+      destruct (spec_recs_lookup s _ _ _ _ j Hk) as [_ Hl]. symmetry. exact Hl. }
+  split.
+  { intros tk nk tb' H1 H2. apply spec_recs_ext. intros i. apply Hframe.
+    - intros Heq. apply H1. congruence.
+    - unfold soa_key. intros Heq. apply H2. congruence. }
+  split; [exact Hframe|]. split.
+  { rewrite records_set_records. rewrite lookup_insert_ne by exact Hnes. apply lookup_insert. }
+  repeat (split; [reflexivity|]). reflexivity.
+Qed.
+
+(** DeleteRecords empties exactly one list; nothing of type SOA disappears *)
+Lemma delete_records_spec c s name typ s' v ns :
+  rec_inv s -> nexec c s (DeleteRecords name typ) = Halt (s', v, ns) ->
+  exists tok tb,
+    tok_of c s name = Halt tok /\ to_byte typ = Halt tb /\ tb <> 6%N /\
+    spec_recs s' (hash tok) (hash name) tb = [] /\
+    (forall tk nk tb', (tk, nk, tb') <> (hash tok, hash name, tb) -> (tk, nk, tb') <> (hash tok, hash tok, 6%N) ->
+       spec_recs s' tk nk tb' = spec_recs s tk nk tb') /\
+    (forall i, records s' !! (hash tok, hash name, tb, i) = None) /\
+    (forall tk nk tb' i, (tk, nk, tb') <> (hash tok, hash name, tb) -> (tk, nk, tb', i) <> soa_key tok ->
+       records s' !! (tk, nk, tb', i) = records s !! (tk, nk, tb', i)) /\
+    is_Some (records s' !! soa_key tok) /\
+    names s' = names s /\ roots s' = roots s /\ supply s' = supply s /\ balances s' = balances s /\
+    acctok s' = acctok s /\ price s' = price s /\ v = VNull /\ ns = [].
+Proof.
+  intros Hinv H.
+  apply delete_records_halt in H as (tok & tb & ns0 & m1 & old & new & _ & Etok & _ & _ & _ & Etb & Htb6 & Hnone & Hsame & Ho & Hr & -> & -> & ->); [|exact Hinv].
+  assert (Hnone' : forall i, records (set_records s (<[soa_key tok := new]> m1)) !! (hash tok, hash name, tb, i) = None).
+  { intros i. rewrite records_set_records. rewrite lookup_insert_ne; [apply Hnone|].
+    unfold soa_key. intros Heq. apply Htb6. congruence. }
+  assert (Hframe : forall tk nk tb' i, (tk, nk, tb') <> (hash tok, hash name, tb) -> (tk, nk, tb', i) <> soa_key tok ->
+     records (set_records s (<[soa_key tok := new]> m1)) !! (tk, nk, tb', i) = records s !! (tk, nk, tb', i)).
+  { intros tk nk tb' i H1 H2. rewrite records_set_records.
+    rewrite lookup_insert_ne by (intros Heq; apply H2; symmetry; exact Heq). apply Hsame. exact H1. }
+  exists tok, tb. split; [exact Etok|]. split; [exact Etb|]. split; [exact Htb6|].
+  split; [apply spec_recs_nil; exact Hnone'|]. split.
+  { intros tk nk tb' H1 H2. apply spec_recs_ext. intros i. apply Hframe; [exact H1|].
+    unfold soa_key. intros Heq. apply H2. congruence. }
+  split; [exact Hnone'|]. split; [exact Hframe|]. split.
+  { rewrite records_set_records, lookup_insert. eauto. }
+  repeat (split; [reflexivity|]). reflexivity.
+Qed.
+
+(** for ALL states (no invariant): a halting DeleteRecords keeps every key of
+    type byte 6; [typ = 6] is refused and no other [typ] maps to byte 6 *)
+Lemma delete_never_soa c s name typ s' v ns :
+  nexec c s (DeleteRecords name typ) = Halt (s', v, ns) ->
+  typ <> 6 /\
+  exists tok, tok_of c s name = Halt tok /\
+    (forall tk nk i, is_Some (records s !! (tk, nk, 6%N, i)) -> is_Some (records s' !! (tk, nk, 6%N, i))) /\
+    (forall tk nk i, (tk, nk, 6%N, i) <> soa_key tok -> records s' !! (tk, nk, 6%N, i) = records s !! (tk, nk, 6%N, i)).
+Proof.
+  intros H.
+  apply delete_records_halt0 in H as (tok & tb & ns0 & old & new & Ht & Etok & _ & _ & _ & Etb & Htb6 & Ho & Hr & -> & _).
+  split; [exact Ht|]. exists tok. split; [exact Etok|].
+  assert (Hsame : forall tk nk i, deleted (records s) (hash tok) (hash name) tb !! (tk, nk, 6%N, i) = records s !! (tk, nk, 6%N, i)).
+  { intros tk nk i. apply deleted_other. intros Heq. apply Htb6. congruence. }
+  split.
+  - intros tk nk i Hs. rewrite records_set_records.
+    destruct (decide ((tk, nk, 6%N, i) = soa_key tok)) as [->|Hne]; [rewrite lookup_insert; eauto|].
+    rewrite lookup_insert_ne by (intros Heq; apply Hne; symmetry; exact Heq). rewrite Hsame. exact Hs.
+  - intros tk nk i Hne. rewrite records_set_records.
+    rewrite lookup_insert_ne by (intros Heq; apply Hne; symmetry; exact Heq). apply Hsame.
+Qed.
+
+Lemma delete_soa_faults c s name : nexec c s (DeleteRecords name T_SOA) = Fault.
+Proof. reflexivity. Qed.
+
+(** every successful record mutation refreshes the serial of the token's SOA *)
+Lemma mutation_soa_serial c s o s' v ns name :
+  rec_inv s -> nexec c s o = Halt (s', v, ns) ->
+  (exists typ data, o = AddRecord name typ data) \/ (exists typ id data, o = SetRecord name typ id data) \/
+  (exists typ, o = DeleteRecords name typ) ->
+  exists tok old new, tok_of c s name = Halt tok /\
+    records s !! soa_key tok = Some old /\ records s' !! soa_key tok = Some new /\ soa_refreshed c old new.
+Proof.
+  intros Hinv H [(typ & data & ->)|[(typ & id & data & ->)|(typ & ->)]].
+  - apply add_record_halt in H as (tok & tb & k & old & new & Hcr & _ & _ & _ & _ & _ & _ & Ho & Hr & -> & _); [|exact Hinv].
+    apply check_record_halt in Hcr as (Etok & _). exists tok, old, new.
+    split; [exact Etok|]. split; [exact Ho|]. split; [|exact Hr]. rewrite records_set_records. apply lookup_insert.
+  - apply set_record_halt in H as (tok & tb & ib & k & old & new & Hcr & _ & _ & _ & _ & _ & _ & Ho & Hr & -> & _); [|exact Hinv].
+    apply check_record_halt in Hcr as (Etok & _). exists tok, old, new.
+    split; [exact Etok|]. split; [exact Ho|]. split; [|exact Hr]. rewrite records_set_records. apply lookup_insert.
+  - apply delete_records_halt0 in H as (tok & tb & ns0 & old & new & _ & Etok & _ & _ & _ & _ & _ & Ho & Hr & -> & _).
+    exists tok, old, new.
+    split; [exact Etok|]. split; [exact Ho|]. split; [|exact Hr]. rewrite records_set_records. apply lookup_insert.
 Qed.
 
 End Records.
